@@ -25,11 +25,64 @@ def has_array_value(f):
     return any(t.node_type() == op.ARRAY_VALUE for t in rs.subterms(f))
 
 
+_SHARED_PARSER = {}
+
+
+def shared_parser(env):
+    """one long-lived parser per environment: it reads every text of the family after a fresh parser did"""
+    from pysmt.smtlib.parser import SmtLibParser
+    k = id(env)
+    if k not in _SHARED_PARSER or _SHARED_PARSER[k][0] is not env:
+        _SHARED_PARSER[k] = (env, SmtLibParser(env))
+    return _SHARED_PARSER[k][1]
+
+
+_LAST_TEXT = {}
+
+
 def roundtrip_smtlib(env, f, daggify):
     from pysmt.smtlib.parser import SmtLibParser
     text = c07.script_text(f, daggify)
+    try:
+        return _roundtrip(env, f, daggify, text)
+    except UsedParserDiffers as e:
+        e.prev = _LAST_TEXT.get(id(env))
+        raise
+
+
+def _roundtrip(env, f, daggify, text):
+    from pysmt.smtlib.parser import SmtLibParser
     script = SmtLibParser(env).get_script(io.StringIO(text))
-    return text, script.get_last_formula()
+    g = script.get_last_formula()
+    # the bare term (to_smtlib) wrapped in a script WITHOUT set-logic: the other common way of writing a formula out.  The shared
+    # parser reads it FIRST, i.e. right after the (different) script of the previous instance.
+    lines = [ln for ln in text.splitlines() if not ln.startswith("(set-logic")]
+    bare = "\n".join(lines)
+    if bare != text:
+        try:
+            g3 = SmtLibParser(env).get_script(io.StringIO(bare)).get_last_formula()
+        except Exception as e:
+            g3 = e
+        try:
+            g4 = shared_parser(env).get_script(io.StringIO(bare)).get_last_formula()
+        except Exception as e:
+            g4 = e
+        if (g3 is not g4) and not (isinstance(g3, Exception) and isinstance(g4, Exception)):
+            raise UsedParserDiffers("without the set-logic line a fresh parser gives %s, a parser that has read other scripts before %s" %
+                                    (g3 if isinstance(g3, Exception) else g3.serialize()[:150],
+                                     g4 if isinstance(g4, Exception) else g4.serialize()[:150]))
+    try:
+        g2 = shared_parser(env).get_script(io.StringIO(text)).get_last_formula()
+        _LAST_TEXT[id(env)] = text          # the last script (with its set-logic) the shared parser has actually read
+    except Exception as e:
+        raise UsedParserDiffers("a parser that has read other scripts before raises %r on text a fresh parser reads" % (e,))
+    if g2 is not g:
+        raise UsedParserDiffers("a parser that has read other scripts before reads %s, a fresh parser %s" % (g2.serialize()[:150], g.serialize()[:150]))
+    return text, g
+
+
+class UsedParserDiffers(Exception):
+    pass
 
 
 def check_smt(env, f, timeout_ms=5000):
@@ -44,6 +97,10 @@ def check_smt(env, f, timeout_ms=5000):
         except Exception as e:
             if type(e).__name__ == "NoLogicAvailableError":
                 return {"name": name, "status": "ok", "skipped": True}    # C07's finding, not a round-trip issue
+            if isinstance(e, UsedParserDiffers):
+                rp = dict(rp, prev_text=getattr(e, "prev", None))
+                return {"name": name, "status": "viol", "signature": "roundtrip/smt/used-parser", "replay": rp,
+                        "describe": "print(%s): %s" % (f.serialize()[:200], e)}
             import re
             if any(re.match(r"^[A-Za-z][A-Za-z0-9_]*$", str(ty)) is None for ty in c07.custom_sorts(f)):
                 return {"name": name, "status": "viol", "signature": "roundtrip/smt/custom-sort-name-needs-quoting",
@@ -250,6 +307,14 @@ def replay(data):
         r = check_script(env, data["idx"])
     else:
         f = bp.from_bp(data["formula"], env)
+        if data.get("prev_text"):
+            # history: the shared parser had read this script just before
+            try:
+                with warnings.catch_warnings():
+                    warnings.simplefilter("ignore")
+                    shared_parser(env).get_script(io.StringIO(data["prev_text"]))
+            except Exception:
+                pass
         r = check_smt(env, f, 20000) if data["k"] == "smt" else check_hr(env, f, 20000)
     if r["status"] == "viol":
         return True, r["describe"]
